@@ -271,6 +271,10 @@ func checkC01(P *Prog, r *Result) {
 	// a schema's tests are not overwritten through a backing array shared with a schema derived from it
 	// (C16's rule: the second `base.Merge(y)` would replace the test the first merge stored)
 	shareRule(P, r, checkC16, "C16/no-shared-backing", nil, "C01/tests-not-overwritten", 4)
+	// "every Required node had a present value": present is what the documented absence predicates say (nil, or a
+	// string of white space only, when parsing; the zero value when validating) - C04's formula and binding rules
+	shareRule(P, r, checkC04, "C04/zero-predicate-formula", nil, "C01/required-means-present", 1)
+	shareRule(P, r, checkC04, "C04/zero-predicate-binding", nil, "C01/required-uses-mode-predicate", 5)
 	r.Extra["schema_ctx_constructors"] = len(ca.ctors)
 	if len(ca.ctors) < 2 {
 		r.broken("vacuous: %d SchemaCtx constructors recognised (floor 2)", len(ca.ctors))
